@@ -152,7 +152,14 @@ pub trait Hist {
     fn show(&self, op: &Self::Op) -> String {
         format!("{:?}", op)
     }
+    /// the configuration string violations of this engine carry (used when an execution aborts or hangs)
+    fn config_name(&self) -> String {
+        String::new()
+    }
 }
+
+/// The property the running check decides (for executions that abort or hang inside the code under test).
+pub static CURRENT_PROP: std::sync::OnceLock<String> = std::sync::OnceLock::new();
 
 pub struct Dfs<'a, H: Hist> {
     pub h: &'a H,
@@ -210,7 +217,18 @@ impl<'a, H: Hist> Dfs<'a, H> {
             st.transitions += 1;
             st.max_depth = st.max_depth.max(k);
             let mut known_continue = false;
-            match self.h.run(hist, st) {
+            // an execution that aborts the process (a panic while another one unwinds) or never returns is
+            // reported as a violation of the history in flight instead of losing the shard
+            if owned {
+                if let Some(p) = CURRENT_PROP.get() {
+                    crate::util::watch(p, "hang: an operation never returns", &self.h.config_name(), hist.iter().map(|o| self.h.show(o)).collect(), 60.0);
+                }
+            }
+            let verdict = self.h.run(hist, st);
+            if owned {
+                crate::util::unwatch();
+            }
+            match verdict {
                 Verdict::Ok { hash, nontrivial } => {
                     st.state(hash, nontrivial);
                     if st.samples.len() < 6 && (st.transitions % 97 == 1) {
